@@ -18,7 +18,7 @@ CMP = dict(gt=operator.gt, ge=operator.ge, lt=operator.lt, le=operator.le, ne=op
 
 
 def expr_leaves(t, out):
-    if t[0] in ("var", "local", "reg", "field"):
+    if t[0] in ("var", "local", "reg", "field", "hash"):
         out.append(t)
     elif t[0] == "bin":
         expr_leaves(t[2], out)
@@ -77,9 +77,11 @@ def stmts_depth(stmts):
     return d
 
 
-def program(stmts, use_kernel=False):
+def program(stmts, use_kernel=False, scope=None):
+    """scope: None, or the name of a temporary ("tmp", "stmp") inside whose block the statements are placed"""
     from ebpfcat.xdp import XDP, XDPExitCode
     from ebpfcat.arraymap import ArrayMap
+    from ebpfcat.hashmap import HashMap, HashGlobalVarDesc
     from ebpfcat.ebpf import LocalVar, Expression, Comparison
 
     leaves, marks = [], []
@@ -89,9 +91,14 @@ def program(stmts, use_kernel=False):
     m = ArrayMap()
     ns = dict(license="GPL", m=m)
     slot, regno = {}, {}
+    hm = HashMap() if any(lf[0] == "hash" for lf in leaves) else None
+    if hm is not None:
+        ns["hm"] = hm
     for i, lf in enumerate(leaves):
         slot[id(lf)] = i
-        if lf[0] == "reg":
+        if lf[0] == "hash":
+            ns[f"in{i}"] = hm.globalVar(lf[1])
+        elif lf[0] == "reg":
             ns[f"in{i}"] = m.globalVar(REG_SRC_FMT[lf[1]])
             regno[i] = OPERAND_REGS[len(regno)]
         elif lf[0] == "field":
@@ -105,7 +112,7 @@ def program(stmts, use_kernel=False):
     n = 8 * 2 ** stmts_depth(stmts) + 1
 
     def expr(self, t):
-        if t[0] in ("var", "field"):
+        if t[0] in ("var", "field", "hash"):
             return getattr(self, f"in{slot[id(t)]}")
         if t[0] == "local":
             return getattr(self, f"loc{slot[id(t)]}")
@@ -156,7 +163,12 @@ def program(stmts, use_kernel=False):
                 setattr(self, f"loc{i}", getattr(self, f"in{i}"))
             elif lf[0] == "reg":
                 getattr(self, lf[1])[regno[i]] = getattr(self, f"in{i}")
-        emit(self, stmts)
+        if scope is None:
+            emit(self, stmts)
+        else:
+            with getattr(self, scope):
+                setattr(self, scope, 1)
+                emit(self, stmts)
         self.exit(XDPExitCode.PASS)
     ns["program"] = prog
     cls = type("CondProg", (XDP,), ns)
@@ -168,7 +180,14 @@ def program(stmts, use_kernel=False):
         raise NotGenerated(f"{type(ex).__name__}: {ex}")
     inst = b.inst
 
+    hfd = next((j + 1 for j, mm in enumerate(b.maps) if mm["type"] == "hash"), 0)
+    if next(j + 1 for j, mm in enumerate(b.maps) if mm["type"] == "array") != 1:
+        raise NotGenerated("the array map is expected to be map 1")
+    keyof = lambda name: type(inst).__dict__[name].count
+
     def east(t):
+        if t[0] == "hash":
+            return dict(k="var", fmt=t[1], fd=hfd, off=keyof(f"in{slot[id(t)]}"))
         if t[0] in ("var", "local"):
             return dict(k="var", fmt=t[1], fd=1, off=inst.__dict__[f"in{slot[id(t)]}"])
         if t[0] == "reg":
@@ -203,19 +222,30 @@ def program(stmts, use_kernel=False):
     leafrecs, inputs = [], []
     for i, lf in enumerate(leaves):
         fmt = REG_SRC_FMT[lf[1]] if lf[0] == "reg" else ("B" if lf[0] == "field" else lf[1])
+        if lf[0] == "hash":
+            key = keyof(f"in{i}")
+            leafrecs.append(dict(fd=hfd, off=key, len=FMT_SIZE[fmt], key=[key]))
+            inputs.append((("hash", key), FMT_SIZE[fmt], fmt.islower()))
+            continue
         off = inst.__dict__[f"in{i}"]
         leafrecs.append(dict(fd=1, off=off, len=FMT_SIZE[fmt]))
         inputs.append((off, FMT_SIZE[fmt], fmt.islower()))
     markrecs = [dict(i=i, fd=1, off=inst.__dict__[f"mk{i}"]) for i in marks]
     return dict(built=b, stmts=sast(stmts), leaves=leafrecs, marks=markrecs, n=n, inputs=inputs,
-                mapsize=b.maps[0]["vs"], nleaves=len(leaves))
+                mapsize=b.maps[0]["vs"], nleaves=len(leaves), hfd=hfd,
+                hashkeys=sorted({v.count for v in ns.values() if isinstance(v, HashGlobalVarDesc)}))
 
 
 def case(pg, values):
     buf = bytearray(pg["mapsize"])
+    hv = {k: bytes(8) for k in pg.get("hashkeys", ())}
     for (off, size, _), v in zip(pg["inputs"], values):
-        buf[off:off + size] = bytes(word(v, size))
-    c = progs.case(pg["built"], arr={1: bytes(buf)})
+        if isinstance(off, tuple):
+            hv[off[1]] = bytes(word(v, size)) + bytes([0xA5] * (8 - size))
+        else:
+            buf[off:off + size] = bytes(word(v, size))
+    c = progs.case(pg["built"], arr={1: bytes(buf)},
+                   hashes=[(pg["hfd"], bytes([k]), v) for k, v in sorted(hv.items())])
     c.update(stmts=pg["stmts"], leaves=pg["leaves"], marks=pg["marks"], n=pg["n"],
              ast=dict(k="const", v=word(0, pg["n"])), dst=dict(fd=1, off=0, size=1))
     return c
